@@ -35,6 +35,7 @@ class Scheduler:
         self.cur = None
         self.killing = False
         self.switches = 0
+        self.main_waitrecv = ()
 
     def spawn(self, fn, name='goroutine'):
         g = Gor(fn, name)
@@ -56,8 +57,8 @@ class Scheduler:
         g.state = 'done'
         self.back.set()
 
-    def run(self, max_switches=20000):
-        """run goroutines round-robin until none can proceed; True if some goroutine is still blocked"""
+    def run(self, max_switches=20000, until=None):
+        """run goroutines round-robin until none can proceed (or until() holds); True if some goroutine is still blocked"""
         E = self.E
         main_stack = E.callstack
         try:
@@ -87,6 +88,8 @@ class Scheduler:
                         exc, g.exc = g.exc, None
                         raise exc
                     ran = True
+                    if until is not None and until():
+                        return True
                 if not ran:
                     break
         finally:
@@ -112,6 +115,9 @@ class Scheduler:
         g.blocked_on = ''
 
     def receivers_waiting(self, ch, exclude=None):
+        for c in self.main_waitrecv:
+            if c is ch:
+                return True
         for g in self.gors:
             if g is exclude or g.state != 'blocked':
                 continue
